@@ -20,7 +20,7 @@ TECHNIQUE = 'Lean 4 proof (transducer prefix structure + kernel-decided 192-entr
 DESIGN_REF = 'DESIGN.md §3 C07'
 
 def gen_ops(tier, rng):
-    return cell_ops(tier, rng, 150 if tier == 'quick' else 3000)
+    return cell_ops(tier, rng, 150 if tier == 'quick' else 3000) + point_ops(tier, rng, 60 if tier == 'quick' else 2000)
 
 def planar_step_max(a5, top):
     """max planar parent->child centroid displacement in parent widths, exhaustively for Hilbert levels 1..top, six orientations (the quantity bounded by C07.one_step)"""
@@ -54,9 +54,19 @@ def oracle(tier, rng, seeds):
         if len(fails) > 20:
             break
     K.check_nesting(a5, fails)
-    for p in geo_gens.points(drv, tier, rng, 100 if tier == 'quick' else 5000)[: (400 if tier == 'quick' else 99999)]:
+    for op in seeds:            # points on which model and implementation disagree: every coarser level of the cell found there
+        t = op.split()
+        if t[0] == 'l2c' and 1 <= int(t[3]) <= 29:
+            from py_driver import bits2f
+            for r2 in sorted({max(0, int(t[3]) - k) for k in (1, 2, 3, 5, 8)}):
+                if r2 < int(t[3]):
+                    K.check_ancestor_of_point(a5, (bits2f(t[1]), bits2f(t[2])), int(t[3]), r2, fails); n += 1
+        if len(fails) > 20:
+            break
+    for p in geo_gens.points(drv, tier, rng, 100 if tier == 'quick' else 5000)[: (600 if tier == 'quick' else 99999)]:
         r = rng.randint(3, 29)
-        K.check_ancestor_of_point(a5, p, r, rng.randint(0, r - 1), fails); n += 1
+        # a nearby coarser level (where a misplaced fine cell shows) or any coarser level
+        K.check_ancestor_of_point(a5, p, r, max(0, r - rng.choice([1, 1, 2, 4])) if rng.random() < 0.6 else rng.randint(0, r - 1), fails); n += 1
     pm = planar_step_max(a5, 3 if tier == 'quick' else 6)
     st['planar_max_step'] = pm
     if pm > 0.46 + 1e-9:
@@ -77,4 +87,13 @@ def replay(f):
         K.check_ancestor_of_point(a5, tuple(d['p']), d['r'], d['r2'], fails)
     else:
         K.check_nesting(a5, fails)
+    for op in seeds:            # points on which model and implementation disagree: every coarser level of the cell found there
+        t = op.split()
+        if t[0] == 'l2c' and 1 <= int(t[3]) <= 29:
+            from py_driver import bits2f
+            for r2 in sorted({max(0, int(t[3]) - k) for k in (1, 2, 3, 5, 8)}):
+                if r2 < int(t[3]):
+                    K.check_ancestor_of_point(a5, (bits2f(t[1]), bits2f(t[2])), int(t[3]), r2, fails); n += 1
+        if len(fails) > 20:
+            break
     return bool(fails)
